@@ -99,6 +99,8 @@ def matrix_rank(m, tol=None, hermitian=False):
         m = m.reshape(1, -1)
     if not _is_concrete(m):
         raise Unsupported("matrix_rank of a symbolic matrix")
+    if tol is not None:
+        raise Unsupported("matrix_rank with an explicit tolerance (the model computes the exact rank)")
     return _sparse_rank(m)
 
 
